@@ -68,7 +68,7 @@ def eval_dumps(ctx, dump_dir, nlines, behs, label):
                 f.write(json.dumps({"lo": lo, "hi": hi}) + "\n")
             files = [nfile] + [os.path.join(dump_dir, "realm_dump_%d.json" % i) for i in range(lo, hi + 1)]
             r = vlib.run_tlc(ctx, "RealmDump", "RealmDump.cfg", workers=1, timeout=3000, extra_files=files,
-                             tags=("DUMPFAIL",), deadlock=True, jvm=["-Xmx2g"])
+                             tags=("DUMPFAIL",), deadlock=True, jvm=["-Xmx2g", "-XX:TieredStopAtLevel=1"])
             if r.error or not r.ok:
                 raise vlib.Inconclusive("TLC-ERROR", "RealmDump lines %d-%d: %s" % (lo, hi, (r.error or r.out)[-1500:]))
             return r
@@ -163,14 +163,15 @@ def witness(ctx):
 
 
 def edges(ctx, cfg, timeout=3000):
-    r = vlib.run_tlc(ctx, "MCRealm", cfg, tags=("EDGE",), timeout=timeout, jvm=["-Xmx4g"])
+    r = vlib.run_tlc(ctx, "MCRealm", cfg, tags=("EDGE",), timeout=timeout, workers=3, jvm=["-Xmx4g", "-XX:TieredStopAtLevel=1"])
     vlib.require_model_ok(r, cfg)
     ctx.add_tlc(r, "exhaustive + one behaviour per commit edge " + cfg)
     return r
 
 
 def simulate(ctx, n, depth=60):
-    r = vlib.run_tlc(ctx, "MCRealm", "Realm_sim.cfg", mode="simulate", simulate=n, depth=depth, tags=("TRACE",), timeout=3000)
+    r = vlib.run_tlc(ctx, "MCRealm", "Realm_sim.cfg", mode="simulate", simulate=n, depth=depth, tags=("TRACE",), timeout=3000,
+                     jvm=["-XX:TieredStopAtLevel=1"])
     vlib.require_model_ok(r, "Realm_sim.cfg")
     ctx.add_tlc(r, "simulate 2 realms, 4 nodes, 4 txs of <= 5 ops")
     return r
@@ -220,19 +221,17 @@ def run(ctx):
         t = threading.Thread(target=w)
         t.start()
         bg.append(t)
-    if quick:
-        start("model", lambda: model(ctx, "Realm_q.cfg", "exhaustive 1 realm, 3 nodes, 2 txs of <= 3 ops", workers=4))
-    else:
+    if not quick:
         start("model", lambda: model(ctx, "Realm_t.cfg", "exhaustive 1 realm, 3 nodes, 3 txs of <= 3 ops", workers=6))
         start("modelx", lambda: model(ctx, "Realm_x.cfg", "exhaustive 2 realms, 3 nodes, 2 txs of <= 4 ops", workers=6))
-    start("witness", lambda: witness(ctx))
+        start("witness", lambda: witness(ctx))
     # directed: the commit edges on which the recursive save meets an object already being saved
     start("loop", lambda: edges(ctx, "Realm_loop.cfg"))
     re_, rx, rs = par([lambda: edges(ctx, "Realm_qe.cfg"), lambda: edges(ctx, "Realm_xq.cfg"),
-                       lambda: simulate(ctx, 50 if quick else 1000)])
+                       lambda: simulate(ctx, 40 if quick else 1000)])
     ctx.cov["edges_emitted"] = len(re_.traces) + len(rx.traces)
     behs = []
-    for r, nq, nt in ((re_, 90, 5000), (rx, 50, 1500)):
+    for r, nq, nt in ((re_, 80, 5000), (rx, 40, 1500)):
         eb = vlib.dedup_prefix(r.traces)
         eb.sort(key=lambda b: json.dumps(b, sort_keys=True))
         n = nq if quick else nt
@@ -252,7 +251,7 @@ def run(ctx):
     ctx.cov["loop_edges"] = len(loops)
     if not loops:
         raise vlib.Inconclusive("VACUOUS", "Realm_loop.cfg emitted no edge on which the save recursion meets an object being saved")
-    crash_probe(ctx, binary, [{"steps": b, "failed_at": len(b)} for b in loops[:2]] + out.get("crash", [])[:1])
+    crash_probe(ctx, binary, [{"steps": b, "failed_at": len(b)} for b in loops[:1 if quick else 2]] + out.get("crash", [])[:1])
     ctx.cov["crash_cases_seen"] = len(out.get("crash", []))
     ctx.cov["exhaustive"] = True
     ctx.assumptions += [
